@@ -7,6 +7,7 @@ python3 - "$pat" <<'PY' > /tmp/regress_list.txt
 import json, sys, re, pathlib
 for d in sorted(pathlib.Path('/verif/seeded').iterdir()):
     if not re.search(sys.argv[1], d.name): continue
+    if not (d / 'meta.json').exists(): continue
     m = json.loads((d / 'meta.json').read_text())
     q = m.get('caught_by_quick_checks') or []
     if q: print(d.name, q[0])
